@@ -132,6 +132,8 @@ pub struct Interp<'a> {
     pub links: BTreeMap<PathBuf, Vec<String>>,   // link target path -> content rels that are symlinks to it
     pub targets: BTreeMap<PathBuf, Option<Vec<u8>>>, // files under $T as the environment last wrote them
     pub target_modes: BTreeMap<PathBuf, Option<u32>>, // ... and their permission bits
+    pub dests: BTreeMap<PathBuf, Vec<u8>>, // what successful extractions delivered: the caller's files from then on
+    pub cache_dests: BTreeSet<String>, // names in the cache root that the scenario itself used as extraction destinations
     pub allow_tmp_leftovers: bool,
     pub deferred: bool, // results are judged after the whole program ran (sysim): no peeking at the directory as it is now
 }
@@ -214,6 +216,8 @@ impl<'a> Interp<'a> {
             links: BTreeMap::new(),
             targets: BTreeMap::new(),
             target_modes: BTreeMap::new(),
+            dests: BTreeMap::new(),
+            cache_dests: BTreeSet::new(),
             allow_tmp_leftovers: false,
             deferred: false,
         };
@@ -972,6 +976,10 @@ impl<'a> Interp<'a> {
     }
 
     fn judge_read(&mut self, st: &Value, r: &Value, key: Option<&str>) {
+        if r["short"] == json!(true) {
+            // the caller asked read_exact for more than the stream holds and stopped there: nothing was delivered
+            return;
+        }
         let flav = Self::flav(st);
         let op = st["op"].as_str().unwrap_or("read").to_string();
         let checked = st.get("check").and_then(|c| c.as_bool()) != Some(false);
@@ -1069,6 +1077,22 @@ impl<'a> Interp<'a> {
             }
         };
         let got_ok = r["r"] == "ok";
+        if let Ok(rel) = to.strip_prefix(&self.cache) {
+            self.cache_dests.insert(rel.to_string_lossy().to_string());
+        }
+        // from now on the destination is the caller's file: nothing the library does later (removals, re-writes of
+        // the entry) may change it. Whatever is there after this call is what is remembered.
+        match &post {
+            // (a destination the caller chose inside the cache directory shares the cache's fate: clear removes it)
+            // (... and only regular files: a hard link to a content path that damage had turned into a symlink is a symlink)
+            FileState::File(b) if (got_ok || post != pre) && !to.starts_with(&self.cache) && std::fs::symlink_metadata(&to).map(|m| m.file_type().is_file()).unwrap_or(false) => {
+                self.dests.insert(to.clone(), b.clone());
+            }
+            FileState::File(_) => {}
+            _ => {
+                self.dests.remove(&to);
+            }
+        }
         if got_ok && op.starts_with("copy") && self.target_modes.contains_key(&to) {
             // the caller asked for a copy onto this path: the permission bits it has now are the caller's doing
             self.target_modes.insert(to.clone(), std::fs::metadata(&to).ok().map(|m| std::os::unix::fs::PermissionsExt::mode(&m.permissions()) & 0o7777));
@@ -1320,7 +1344,8 @@ impl<'a> Interp<'a> {
         if r["r"] != "ok" {
             // by the history (not by a look at the disk: a clear that removed the directory itself must not excuse the
             // failure of the next one) the cache directory is there
-            if (existed && (self.deferred || self.cache.is_dir())) || self.m.cache_dir {
+            // (a file the scenario itself put into the cache root makes clear fail: it only removes directories)
+            if ((existed && (self.deferred || self.cache.is_dir())) || self.m.cache_dir) && self.cache_dests.is_empty() {
                 self.viol("removal", format!("removal/clear/{}/{}", flav, Self::bad_result_detail(r)), format!("clear failed: {}", r));
             }
             return;
@@ -1336,7 +1361,8 @@ impl<'a> Interp<'a> {
         self.m.cleared = true;
         self.m.index_dir = false;
         let d = if self.deferred { disk::Disk::default() } else { disk::scan(&self.cache) };
-        if !d.content.is_empty() || !d.buckets.is_empty() || !d.tmp.is_empty() || !d.other.is_empty() {
+        let others = d.other.iter().filter(|o| !self.cache_dests.contains(*o)).count();
+        if !d.content.is_empty() || !d.buckets.is_empty() || !d.tmp.is_empty() || others > 0 {
             self.viol("removal", format!("removal/clear/{}/leftovers", flav), format!("after clear the cache still holds {} content, {} bucket, {} tmp, {} other files", d.content.len(), d.buckets.len(), d.tmp.len(), d.other.len()));
         }
     }
@@ -1408,6 +1434,19 @@ impl<'a> Interp<'a> {
         let size_ok = declared_size.map(|s| s == data.len() as u64).unwrap_or(true);
         let is_ok = r["r"] == "ok";
         if integ_amb {
+            // both outcomes accepted; whatever symlink is there belongs to this linker
+            if let Some(rel) = hash::content_rel(&computed) {
+                if std::fs::symlink_metadata(self.cache.join(&rel)).map(|m| m.file_type().is_symlink()).unwrap_or(false) && !self.m.content.contains_key(&rel) {
+                    self.m.content.insert(rel.clone(), Content { orig: data.clone(), state: CState::Pristine, is_link: true });
+                    self.links.entry(tgt_abs.clone()).or_default().push(rel);
+                }
+            }
+            if is_ok {
+                if let Some(k) = key {
+                    self.m.keys.entry(k.to_string()).or_insert(None);
+                    self.resync_keys_from_disk(false);
+                }
+            }
             return;
         }
         if !(integ_ok && size_ok) {
@@ -1666,6 +1705,22 @@ impl<'a> Interp<'a> {
                     b.splice(off..off, ins);
                     std::fs::write(&path, &b)
                 }
+                "boundary_byte" => {
+                    // the newline in front of the n-th record is overwritten (by a tab, a space, a NUL, ...): two records fuse into one line
+                    let mut b = std::fs::read(&path)?;
+                    let bounds: Vec<usize> = b.iter().enumerate().filter(|(_, c)| **c == b'\n').map(|(i, _)| i).collect();
+                    let i = st["boundary"].as_u64().unwrap_or(0) as usize;
+                    if i < bounds.len() {
+                        b[bounds[i]] = st["byte"].as_u64().unwrap_or(9) as u8;
+                    } else {
+                        noop = true;
+                    }
+                    write_inplace(&path, &b)
+                }
+                "chmod" => {
+                    use std::os::unix::fs::PermissionsExt;
+                    std::fs::set_permissions(&path, std::fs::Permissions::from_mode(st["mode"].as_u64().unwrap_or(0o644) as u32))
+                }
                 "dup_fragment" | "dup_frac" => {
                     let mut b = std::fs::read(&path)?;
                     let n = b.len();
@@ -1712,10 +1767,37 @@ impl<'a> Interp<'a> {
         }
         let after = std::fs::read(&path).ok();
         let changed = before != after;
-        if noop || (!changed && act != "noop_mark_damaged" && act != "mkdir" && act != "dir_symlink" && act != "toplevel_symlink" && act != "symlink_loop") {
+        if noop || (!changed && act != "noop_mark_damaged" && act != "mkdir" && act != "chmod" && act != "dir_symlink" && act != "toplevel_symlink" && act != "symlink_loop") {
             self.probe("env_step_noop");
         } else {
             self.fault(&format!("{}{}", if st.get("content").is_some() { "content." } else if st.get("bucket").is_some() { "bucket." } else { "fs." }, act.trim_end_matches("_frac")));
+        }
+        // the environment wrote to a file outside the cache: if that file is a hard link handed out by an earlier
+        // extraction, the content file (same inode) is damaged now
+        if changed && !path.starts_with(&self.cache) {
+            let rels: Vec<String> = self.m.content.iter().filter(|(_, c)| c.state == CState::Pristine && !c.is_link).map(|(r, _)| r.clone()).collect();
+            for rel in rels {
+                if let Ok(b) = std::fs::read(self.cache.join(&rel)) {
+                    if let Some(c) = self.m.content.get_mut(&rel) {
+                        if b != c.orig {
+                            c.state = CState::Damaged;
+                            *self.out.faults.entry("content.through_hard_link".to_string()).or_insert(0) += 1;
+                        }
+                    }
+                }
+            }
+        }
+        // what the environment does to extracted files (also through a shared inode) is not the library's doing
+        for (p, b) in self.dests.clone() {
+            match std::fs::read(&p) {
+                Ok(now) if now != b => {
+                    self.dests.insert(p, now);
+                }
+                Ok(_) => {}
+                Err(_) => {
+                    self.dests.remove(&p);
+                }
+            }
         }
         // files under the link-target area: remember what the environment wrote, mark linked content
         let troot = self.root.join("targets");
@@ -1878,6 +1960,14 @@ impl<'a> Interp<'a> {
         if self.out.harness.is_some() {
             return;
         }
+        // files delivered by earlier extractions still hold what was delivered
+        for (p, b) in self.dests.clone() {
+            let now = std::fs::read(&p).ok();
+            if now.as_ref() != Some(&b) {
+                let shown = self.unsubst(&penc(&p));
+                self.viol("extract", "extract/dest-changed-later".to_string(), format!("{} held {} B after its extraction and holds {} now: a later call of the library changed a file it had handed out", shown, b.len(), now.map(|n| format!("{} B", n.len())).unwrap_or("nothing".into())));
+            }
+        }
         let d = disk::scan(&self.cache);
         // I1: every regular file under content-v2 hashes to its path (unless the environment damaged it)
         for cf in &d.content {
@@ -1927,8 +2017,9 @@ impl<'a> Interp<'a> {
             }
         }
         self.check_targets_untouched("end-of-run");
-        if !d.other.is_empty() {
-            self.viol("format", "format/stray-files".to_string(), format!("unexpected files in the cache root: {:?}", d.other));
+        let strays: Vec<&String> = d.other.iter().filter(|o| !self.cache_dests.contains(*o)).collect();
+        if !strays.is_empty() {
+            self.viol("format", "format/stray-files".to_string(), format!("unexpected files in the cache root: {:?}", strays));
         }
         // format: bucket bytes are exactly what the reference writer emits for the model's insert sequence
         if !self.m.index_faulted && !self.m.foreign && self.strict_format {
